@@ -3,10 +3,12 @@ Proofs in coq/C01; correspondence and oracle against the real spikeglx.Reader
 (imported through PYTHONPATH, so IBLNPX_REPO selects the copy under test)."""
 import base64
 import glob
+import hashlib
 import json
 import logging
 import os
 import shutil
+import signal
 import time
 import traceback
 import warnings
@@ -212,6 +214,12 @@ class Recording:
 
     def open(self, sort):
         import spikeglx
+        if getattr(self, "file_sha1", None) is None:
+            self.file_sha1 = hashlib.sha1(Path(self.file).read_bytes()).hexdigest()
+        with time_limit(60):
+            return self._open(spikeglx, sort)
+
+    def _open(self, spikeglx, sort):
         f = str(self.file) if self.as_str else self.file
         if self.flat is not None:
             return spikeglx.Reader(f, nc=self.nc, ns=self.ns, fs=30000, nsync=self.flat["nsync"],
@@ -338,15 +346,57 @@ def n_selected(s, n):
 # --------------------------------------------------------------------------
 # implementation runner / canonicaliser
 # --------------------------------------------------------------------------
-def observe(f):
-    """Outcome of an implementation call, canonicalised; nothing in here can raise."""
+TIMEOUTS = [0]
+
+
+class HarnessTimeout(Exception):
+    """an implementation call did not return within the limit (Python-level loop)"""
+
+
+class time_limit:
+    """SIGALRM watchdog around calls into the implementation (main thread only; a hang inside C code
+    cannot be interrupted this way — none of the anchored code releases control to C for long)."""
+
+    def __init__(self, seconds=30):
+        self.seconds = seconds
+
+    def _raise(self, *a):
+        raise HarnessTimeout("no return within %d s" % self.seconds)
+
+    def __enter__(self):
+        try:
+            self.old = signal.signal(signal.SIGALRM, self._raise)
+            signal.setitimer(signal.ITIMER_REAL, self.seconds)
+            self.on = True
+        except Exception:   # noqa  (not in the main thread)
+            self.on = False
+        return self
+
+    def __exit__(self, *a):
+        if self.on:
+            signal.setitimer(signal.ITIMER_REAL, 0)
+            signal.signal(signal.SIGALRM, self.old)
+        return False
+
+
+def observe(f, keep=None):
+    """Outcome of an implementation call, canonicalised; nothing in here can raise.
+    keep: dict receiving the raw returned data array (for the aliasing check)."""
+    if TIMEOUTS[0] >= 5:        # the implementation hangs: stop calling it, every call counts as a failure
+        return ("err", "HarnessTimeout")
     try:
-        with warnings.catch_warnings():
+        with warnings.catch_warnings(), time_limit(20):
             warnings.simplefilter("ignore")
             r = f()
-    except Exception as e:      # noqa
+    except HarnessTimeout:
+        TIMEOUTS[0] += 1
+        return ("err", "HarnessTimeout")
+    except BaseException as e:      # noqa  (SystemExit / KeyboardInterrupt raised by the code under test included)
         return ("err", type(e).__name__)
     try:
+        if keep is not None:
+            d = r[0] if isinstance(r, tuple) and len(r) == 2 else r
+            keep["raw"] = d if isinstance(d, np.ndarray) else None
         if r is None:
             return ("none",)
         if isinstance(r, tuple):    # read_samples / read(sync=True): (data, sync)
@@ -372,10 +422,10 @@ def snapshot(sr, rec):
     plain values.  Raises ImplProblem (turned into a property failure by the caller)."""
     def get(name, f):
         try:
-            with warnings.catch_warnings():
+            with warnings.catch_warnings(), time_limit(20):
                 warnings.simplefilter("ignore")
                 return f()
-        except Exception as e:      # noqa
+        except BaseException as e:      # noqa
             raise ImplProblem("reader.%s raised %s: %s" % (name, type(e).__name__, e))
 
     def vec(name, v, n, kinds):
@@ -406,9 +456,9 @@ def snapshot(sr, rec):
     conv = get("channel_conversion_sample2v", lambda: sr.channel_conversion_sample2v)
     if not isinstance(conv, dict) or typ not in conv:
         raise ImplProblem("reader.channel_conversion_sample2v is %s without key %r" % (type(conv).__name__, typ))
-    snap["s2v"] = vec("channel_conversion_sample2v[%r]" % typ, conv[typ], nc, "f")
-    snap["sample2volts"] = vec("sample2volts", get("sample2volts", lambda: sr.sample2volts), nc, "f")
-    snap["range_volts"] = vec("range_volts", get("range_volts", lambda: sr.range_volts), nc, "f")
+    snap["s2v"] = vec("channel_conversion_sample2v[%r]" % typ, conv[typ], nc, "f").copy()
+    snap["sample2volts"] = vec("sample2volts", get("sample2volts", lambda: sr.sample2volts), nc, "f").copy()
+    snap["range_volts"] = vec("range_volts", get("range_volts", lambda: sr.range_volts), nc, "f").copy()
     has_order = get("raw_channel_order", lambda: hasattr(sr, "raw_channel_order"))
     snap["order"] = None
     if has_order:
@@ -427,7 +477,7 @@ def snapshot(sr, rec):
         n = int(g["col"].shape[0])
         if rec.flat is None and n > nc:
             raise ImplProblem("reader.geometry has %d sites for %d channels" % (n, nc))
-        snap["geometry"] = {k: vec("geometry[%r]" % k, g[k], n, "fiu") for k in g}
+        snap["geometry"] = {k: vec("geometry[%r]" % k, g[k], n, "fiu").copy() for k in g}
     if rec.cbin:
         b = get("_raw.chunk_bounds", lambda: [int(x) for x in sr._raw.chunk_bounds])
         if len(b) < 2 or b[0] != 0 or b[-1] != rec.ns or any(x > y for x, y in zip(b, b[1:])):
@@ -436,17 +486,33 @@ def snapshot(sr, rec):
     return snap
 
 
-def run_impl(sr, case):
+def same_selector(a, b):
+    if isinstance(a, np.ndarray) or isinstance(b, np.ndarray):
+        return (isinstance(a, np.ndarray) and isinstance(b, np.ndarray) and a.dtype == b.dtype and
+                a.shape == b.shape and bool(np.array_equal(a, b)))
+    return type(a) is type(b) and a == b
+
+
+def run_impl(sr, case, keep=None):
+    """keep: dict; receives "raw" (returned array object) and "args_modified" (a selector object
+    the caller passed was changed in place by the call)."""
     api, sels = case["api"], case["sels"]
     p = [to_py(s) for s in sels]
     if api == "read":
-        return observe(lambda: sr.read(p[0], p[1], sync=False))
-    if api == "read_samples":
+        obs = observe(lambda: sr.read(p[0], p[1], sync=False), keep)
+    elif api == "read_samples":
         s = sels[0]
-        return observe(lambda: sr.read_samples(s[1], s[2], p[1] if len(p) > 1 else None))
-    if api == "getitem1":
-        return observe(lambda: sr[p[0]])
-    return observe(lambda: sr[tuple(p)])      # getitem2 / getitemk
+        obs = observe(lambda: sr.read_samples(s[1], s[2], p[1] if len(p) > 1 else None), keep)
+    elif api == "getitem1":
+        obs = observe(lambda: sr[p[0]], keep)
+    else:
+        obs = observe(lambda: sr[tuple(p)], keep)      # getitem2 / getitemk
+    if keep is not None:
+        try:
+            keep["args_modified"] = not all(same_selector(x, to_py(s)) for x, s in zip(p, sels))
+        except Exception:   # noqa
+            keep["args_modified"] = True
+    return obs
 
 
 def enc_case(rec, order, case):
@@ -746,7 +812,7 @@ def build_recordings(ctx, tdir):
         text, fs, nc, exp = synth_meta(rng, "nidq", 0, layout=lay)
         cb = (k % 3 == 0)
         recs.append(dict(name="g_%d" % k, text=text, fs=fs, ns=rng.choice([2, 3, 5]), nc=nc, cbin=cb, chunk=2,
-                         label="nidqgrid:%d,%d,%d,%d" % lay, big=False, exp_s2v=exp, ncases=3))
+                         label="nidqgrid:%d,%d,%d,%d" % lay, big=False, exp_s2v=exp, ncases=2))
     # imec streams saved WITHOUT the sync channel (snsApLfSy = N,0,0 / 0,N,0)
     for kind in ("3B2", "lf", "NP2.4", "NPultra", "3A", "NP2.1"):
         text, fs, nc, exp = synth_meta(rng, kind, rng.choice([4, 6, 9]), nsync=0)
@@ -975,18 +1041,18 @@ def sync_pair(sr, case, obs):
             return sr.read(p[0], p[1])
         return sr.read_samples(sels[0][1], sels[0][2], p[1] if len(p) > 1 else None)
     try:
-        with warnings.catch_warnings():
+        with warnings.catch_warnings(), time_limit(20):
             warnings.simplefilter("ignore")
             ref = sr.read_sync(nsel)
         ref_err = None
-    except Exception as e:      # noqa
+    except BaseException as e:      # noqa
         ref, ref_err = None, type(e).__name__
     try:
-        with warnings.catch_warnings():
+        with warnings.catch_warnings(), time_limit(20):
             warnings.simplefilter("ignore")
             r = both()
         err = None
-    except Exception as e:      # noqa
+    except BaseException as e:      # noqa
         r, err = None, type(e).__name__
     if obs[0] == "err":
         return None if err is not None else "sync=False raises %s but sync=True returned" % obs[1]
@@ -1026,13 +1092,13 @@ def check_recording(ctx, rec, stats, work):
     try:
         for sort in (True, False):
             readers[sort] = rec.open(sort)
-    except Exception as e:      # noqa
+    except BaseException as e:      # noqa
         ctx.fail("Reader could not open the mock recording: %r" % (e,), describe(rec, None, None),
                  dict(ftag, kind="open"))
         for r in readers.values():
             try:
                 r.close()
-            except Exception:   # noqa
+            except BaseException:   # noqa
                 pass
         return
     try:
@@ -1095,37 +1161,90 @@ def check_recording(ctx, rec, stats, work):
                     [None, -6, -5, -2, -1, 0, 1, 2, 4, 5, 6]
                 cases = sweep_cases(rec.ns, rec.nc, vals) if sort else []
             else:
-                n = (60 if ctx.thorough() else 14) if rec.big else (150 if ctx.thorough() else 34)
+                n = (60 if ctx.thorough() else 12) if rec.big else (150 if ctx.thorough() else 30)
                 if rec.ncases:
                     n = rec.ncases * (3 if ctx.thorough() else 1)
                 cases = gen_cases(rng, rec.ns, rec.nc, rec.cbin, n, rec.big)
                 if rec.flat is not None:
                     # read_samples / read(sync=True) need the meta (read_sync; see notes F-C01-e): not used here
                     cases = [c for c in cases if c["api"] != "read_samples"]
+            state = {"prev": None}
             for case in cases:
                 do_sync = rec.flat is None and case["api"] in ("read", "read_samples") and rng.random() < 0.35
                 guarded(ctx, "examining " + call_str(case), describe(rec, sort, case),
-                        lambda: one_case(ctx, rec, sr, sort, case, CS, s2v, order, do_sync, stats, work), ftag)
+                        lambda: one_case(ctx, rec, sr, sort, case, CS, s2v, order, do_sync, stats, work, state), ftag)
+            # the reader and the file are unchanged by the reads
+            guarded(ctx, "re-reading the reader's attributes", desc0,
+                    lambda: unchanged_clauses(ctx, rec, sr, snap, desc0), ftag)
     finally:
         for r in readers.values():
             try:
                 r.close()
-            except Exception:   # noqa
+            except BaseException:   # noqa
                 pass
 
 
 def read_sync_raises(sr, nsel):
     try:
-        with warnings.catch_warnings():
+        with warnings.catch_warnings(), time_limit(20):
             warnings.simplefilter("ignore")
             sr.read_sync(nsel)
         return None
-    except Exception as e:      # noqa
+    except BaseException as e:      # noqa
         return type(e).__name__
 
 
-def one_case(ctx, rec, sr, sort, case, CS, s2v, order, do_sync, stats, work):
-    obs = run_impl(sr, case)
+def snap_equal(a, b):
+    for k in ("s2v", "sample2volts", "range_volts"):
+        if not (a[k].dtype == b[k].dtype and np.array_equal(a[k], b[k], equal_nan=True)):
+            return "reader.%s" % ("channel_conversion_sample2v" if k == "s2v" else k)
+    if a["order"] != b["order"]:
+        return "reader.raw_channel_order"
+    if (a["geometry"] is None) != (b["geometry"] is None):
+        return "reader.geometry"
+    if a["geometry"] is not None:
+        if set(a["geometry"]) != set(b["geometry"]):
+            return "reader.geometry keys"
+        for k in a["geometry"]:
+            if not np.array_equal(a["geometry"][k], b["geometry"][k], equal_nan=True):
+                return "reader.geometry[%r]" % k
+    return None
+
+
+def unchanged_clauses(ctx, rec, sr, snap0, desc):
+    """after all the reads: same attributes, same bytes on disk"""
+    snap1 = snapshot(sr, rec)
+    why = snap_equal(snap0, snap1)
+    if why:
+        ctx.fail("%s changed while reading (state mutated in place)" % why, desc,
+                 {"kind": "purity", "file": "cbin" if rec.cbin else "bin"})
+    if hashlib.sha1(Path(rec.file).read_bytes()).hexdigest() != rec.file_sha1:
+        ctx.fail("the recording file was modified by reading", desc,
+                 {"kind": "purity", "file": "cbin" if rec.cbin else "bin"})
+
+
+def one_case(ctx, rec, sr, sort, case, CS, s2v, order, do_sync, stats, work, state=None):
+    keep = {}
+    obs = run_impl(sr, case, keep)
+    if keep.get("args_modified"):
+        ctx.fail("the call modified a selector object passed by the caller — " + call_str(case),
+                 describe(rec, sort, case), {"kind": "purity", "file": "cbin" if rec.cbin else "bin"})
+    if state is not None:
+        prev = state.get("prev")
+        if prev is not None:
+            arr, bits, pcase = prev
+            try:
+                now = np.ascontiguousarray(arr).reshape(-1).view(np.uint32)
+                changed = now.shape != bits.shape or not np.array_equal(now, bits)
+            except Exception:   # noqa
+                changed = True
+            if changed:
+                ctx.fail("an array returned by an earlier call (%s) changed when %s was executed: results "
+                         "share memory with reader state" % (call_str(pcase), call_str(case)),
+                         describe(rec, sort, pcase), {"kind": "purity", "file": "cbin" if rec.cbin else "bin"})
+        raw = keep.get("raw")
+        state["prev"] = (raw, obs[3].copy(), case) if (raw is not None and obs[0] == "ok" and obs[3] is not None
+                                                        and raw.dtype == np.float32) else None
     if case["api"] == "read_samples" and obs[0] == "err":
         # read_samples = read(slice, channels, sync=True): when read_sync itself (C10's, e.g. nidq with 0 or
         # >= 2 digital words) raises that exception, the data part is examined through sync=False
@@ -1153,7 +1272,7 @@ def one_case(ctx, rec, sr, sort, case, CS, s2v, order, do_sync, stats, work):
                      dict(ftag, kind="read", api=case["api"], selector=selector_class(rec, case)))
     if model_eligible(rec, case):
         work.append((rec, sort, case, obs, s2v, enc_case(rec, order, case)))
-    if do_sync:
+    if do_sync and TIMEOUTS[0] < 5:
         why = sync_pair(sr, case, obs)
         stats["sync_pair_checks"] += 1
         if why:
@@ -1177,6 +1296,7 @@ def run_model(ctx, inputs, nproc=4):
 
 
 def run(ctx):
+    TIMEOUTS[0] = 0
     os.environ["TQDM_DISABLE"] = "1"
     logging.disable(logging.CRITICAL)
     common.proof_obligations(ctx, whitelist=sorted(common.STDLIB_AXIOMS), coqchk_admit=["IBL.C01.SyncSweep"])
